@@ -2,7 +2,7 @@
 Core A (codec): the statements of C03 for every message object reachable through the
 public API — `Type.New()` or a successful `Decode`, then any setter calls.
 -/
-import Mqtt.Proofs.CodecReach
+import Mqtt.Proofs.CodecReachInv
 
 set_option linter.unusedSimpArgs false
 set_option linter.unusedVariables false
@@ -49,6 +49,34 @@ def Excluded (o : Origin) (ss : List Setter) : Bool :=
   !o.canonical && (match run o ss with
     | some m => !m.hdr.dirty
     | none => false)
+
+/-- the bytes between the type/flags byte and the body of the decoded fields: how the input wrote the remaining length -/
+def srcLenBytes (src : Bytes) (d : Decoded) : Bytes :=
+  ((src.take d.n).drop 1).take (d.n - 1 - (absMsg d.msg).body.length)
+
+instance (src : Bytes) (d : Decoded) (V : Bytes) : Decidable (BodyCanonical src d V) :=
+  inferInstanceAs (Decidable (_ ∧ _))
+
+/-- the accepted input was the type/flags byte, some one- to four-byte form of the remaining length, and the body
+of the fields the decoder returned (weaker than `canonical`: the remaining length need not be minimal) -/
+def Origin.bodyCanonical : Origin → Bool
+  | .new _ => true
+  | .dec t src => match decodeNew t src with
+    | .ok d => decide (BodyCanonical src d (srcLenBytes src d))
+    | _ => true
+
+/-- the runs the `Encodes` theorem leaves out: the accepted input was not even an encoding of the returned fields
+up to the form of the remaining length (the leniently accepted CONNECT whose flag announces a missing field), and
+the object is still clean -/
+def ExcludedV (o : Origin) (ss : List Setter) : Bool :=
+  !o.bodyCanonical && (match run o ss with
+    | some m => !m.hdr.dirty
+    | none => false)
+
+/-- what the origin guarantees about the decode buffer: the input was `V` + the body of the returned fields -/
+def OriginV (V : Bytes) : Origin → Prop
+  | .new _ => True
+  | .dec t src => ∀ d, decodeNew t src = .ok d → BodyCanonical src d V
 
 theorem start_dec (t : Nat) (src : Bytes) :
     (Origin.dec t src).start = (match decodeNew t src with | .ok d => some d.msg | _ => none) := rfl
@@ -106,13 +134,13 @@ theorem shape_reachable {m : Msg} (h : Reachable m) : Shape m := by
   | dec h => exact shape_dec h
   | set s _ ih => exact shape_set _ s ih
 
-theorem rinv_setters (m : Msg) (ss : List Setter) (hi : RInv m) : RInv (applySetters m ss).1 := by
+theorem rinv_setters (V : Bytes) (m : Msg) (ss : List Setter) (hi : RInv V m) : RInv V (applySetters m ss).1 := by
   induction ss generalizing m with
   | nil => exact hi
-  | cons s ss ih => exact ih _ (rinv_set m s hi)
+  | cons s ss ih => exact ih _ (rinv_set V m s hi)
 
-theorem rinv_run {o : Origin} {ss : List Setter} {m : Msg} (hr : run o ss = some m) (hc : o.canonical = true) :
-    RInv m := by
+theorem rinv_run {o : Origin} {ss : List Setter} {m : Msg} {V : Bytes} (hr : run o ss = some m) (hV : OriginV V o) :
+    RInv V m := by
   unfold run at hr
   cases hs : o.start with
   | none => rw [hs] at hr; cases hr
@@ -122,22 +150,98 @@ theorem rinv_run {o : Origin} {ss : List Setter} {m : Msg} (hr : run o ss = some
     rw [← hr]
     apply rinv_setters
     cases o with
-    | new t => exact rinv_new hs
+    | new t => exact rinv_new V hs
     | dec t src =>
       rw [start_dec] at hs
-      rw [canonical_dec] at hc
       cases hd : decodeNew t src with
       | ok d =>
-        rw [hd] at hs hc
+        rw [hd] at hs
         injection hs with hs
         rw [← hs]
-        exact rinv_dec hd (of_decide_eq_true hc)
+        exact rinv_dec hd (hV d hd)
       | err => rw [hd] at hs; cases hs
       | panic => rw [hd] at hs; cases hs
 
-/-- the reference-encoding statement, for a message with the reachable-message invariant -/
-theorem rinv_encode_wire {m : Msg} (hi : RInv m) (hw : WillOk m) (ctr : UInt64) (e : Encoded)
-    (he : encode m ctr m.len = .ok e) : e.out = Wire.encode (absMsg e.msg) := by
+theorem bodyCanonical_dec (t : Nat) (src : Bytes) :
+    (Origin.dec t src).bodyCanonical =
+      (match decodeNew t src with | .ok d => decide (BodyCanonical src d (srcLenBytes src d)) | _ => true) := rfl
+
+/-- a canonical origin: the remaining-length bytes are the minimal ones of some length in range -/
+theorem originV_of_canonical {o : Origin} (hc : o.canonical = true) :
+    ∃ L0, L0 ≤ 268435455 ∧ OriginV (Wire.varint L0) o := by
+  cases o with
+  | new t => exact ⟨0, by omega, trivial⟩
+  | dec t src =>
+    rw [canonical_dec] at hc
+    cases hd : decodeNew t src with
+    | ok d =>
+      rw [hd] at hc
+      obtain ⟨hb, hL⟩ := canonical_body hd (of_decide_eq_true hc)
+      refine ⟨_, hL, ?_⟩
+      intro d' hd'
+      rw [hd] at hd'
+      injection hd' with hd'
+      rw [← hd']
+      exact hb
+    | err => exact ⟨0, by omega, fun d' hd' => by rw [hd] at hd'; cases hd'⟩
+    | panic => exact ⟨0, by omega, fun d' hd' => by rw [hd] at hd'; cases hd'⟩
+
+/-- a reference encoding is in particular body-canonical (so `ExcludedV` excludes fewer runs than `Excluded`) -/
+theorem canonical_imp_bodyCanonical {o : Origin} (hc : o.canonical = true) : o.bodyCanonical = true := by
+  cases o with
+  | new t => rfl
+  | dec t src =>
+    rw [canonical_dec] at hc
+    rw [bodyCanonical_dec]
+    cases hd : decodeNew t src with
+    | ok d =>
+      rw [hd] at hc
+      simp only []
+      have hcan : CanonicalSrc src d := of_decide_eq_true hc
+      obtain ⟨⟨h1, h2⟩, hL⟩ := canonical_body hd hcan
+      have hV : srcLenBytes src d = Wire.varint (absMsg d.msg).body.length := by
+        unfold srcLenBytes
+        have hlen : d.n = 1 + (Wire.varint (absMsg d.msg).body.length).length + (absMsg d.msg).body.length := by
+          have ok := (decodeNew_total t src).of_ok hd
+          have := congrArg List.length h1
+          unfold Wire.encodeV at this
+          simp only [List.length_cons, List.length_append, List.length_take] at this
+          have := ok.n_le
+          omega
+        rw [h1]
+        unfold Wire.encodeV
+        simp only [List.drop_succ_cons, List.drop_zero]
+        rw [hlen]
+        have e : 1 + (Wire.varint (absMsg d.msg).body.length).length + (absMsg d.msg).body.length - 1 -
+            (absMsg d.msg).body.length = (Wire.varint (absMsg d.msg).body.length).length := by omega
+        rw [e]
+        simp
+      apply decide_eq_true
+      rw [hV]
+      exact ⟨h1, h2⟩
+    | err => rfl
+    | panic => rfl
+
+theorem originV_of_body {o : Origin} (hc : o.bodyCanonical = true) : ∃ V, OriginV V o := by
+  cases o with
+  | new t => exact ⟨[], trivial⟩
+  | dec t src =>
+    rw [bodyCanonical_dec] at hc
+    cases hd : decodeNew t src with
+    | ok d =>
+      rw [hd] at hc
+      refine ⟨srcLenBytes src d, ?_⟩
+      intro d' hd'
+      rw [hd] at hd'
+      injection hd' with hd'
+      rw [← hd']
+      exact of_decide_eq_true hc
+    | err => exact ⟨[], fun d' hd' => by rw [hd] at hd'; cases hd'⟩
+    | panic => exact ⟨[], fun d' hd' => by rw [hd] at hd'; cases hd'⟩
+
+/-- the reference-encoding statement, for a message with the reachable-message invariant for minimal remaining-length bytes -/
+theorem rinv_encode_wire {L0 : Nat} (hL0 : L0 ≤ 268435455) {m : Msg} (hi : RInv (Wire.varint L0) m) (hw : WillOk m)
+    (ctr : UInt64) (e : Encoded) (he : encode m ctr m.len = .ok e) : e.out = Wire.encode (absMsg e.msg) := by
   obtain ⟨hs, hc⟩ := hi
   cases hd : m.hdr.dirty with
   | true => exact encode_wire m ctr e hd (canon_of_shape m hs hw) he
@@ -146,7 +250,18 @@ theorem rinv_encode_wire {m : Msg} (hi : RInv m) (hw : WillOk m) (ctr : UInt64) 
     rw [h2] at he
     injection he with he
     rw [← he]
-    exact (hc hd).buf
+    exact clean_reference hL0 (hc hd)
+
+/-- a clean message with the invariant for remaining-length bytes `V` is encoded as `V` + the body of its fields -/
+theorem rinv_encode_encodes {V : Bytes} {m : Msg} (hi : RInv V m) (hd : m.hdr.dirty = false)
+    (ctr : UInt64) (e : Encoded) (he : encode m ctr m.len = .ok e) :
+    e.msg = m ∧ e.out = Wire.encodeV V (absMsg m) ∧ Wire.Encodes e.out (absMsg e.msg) := by
+  obtain ⟨_, h2⟩ := encode_clean m ctr hd
+  rw [h2] at he
+  injection he with he
+  rw [← he]
+  have hc := hi.2 hd
+  exact ⟨rfl, hc.buf, V, hc.vlen, hc.buf⟩
 
 /-- … and for a reachable message that is dirty, whatever it was decoded from -/
 theorem reachable_dirty_encode_wire {m : Msg} (hr : Reachable m) (hd : m.hdr.dirty = true) (hw : WillOk m)
@@ -170,7 +285,8 @@ theorem run_encode_wire {o : Origin} {ss : List Setter} {m : Msg} (hr : run o ss
     (hw : WillOk m) (ctr : UInt64) (e : Encoded) (he : encode m ctr m.len = .ok e) :
     e.out = Wire.encode (absMsg e.msg) := by
   rcases not_excluded hr hx with hc | hd
-  · exact rinv_encode_wire (rinv_run hr hc) hw ctr e he
+  · obtain ⟨L0, hL0, hV⟩ := originV_of_canonical hc
+    exact rinv_encode_wire hL0 (rinv_run hr hV) hw ctr e he
   · exact reachable_dirty_encode_wire ((reachable_iff_run m).mpr ⟨o, ss, hr⟩) hd hw ctr e he
 
 theorem run_round_trip {o : Origin} {ss : List Setter} {m : Msg} (hr : run o ss = some m) (hx : Excluded o ss = false)
@@ -179,6 +295,83 @@ theorem run_round_trip {o : Origin} {ss : List Setter} {m : Msg} (hr : run o ss 
     ∃ d, decodeNew (absMsg e.msg).type (e.out ++ rest) = .ok d ∧ d.n = e.out.length ∧ absMsg d.msg = absMsg e.msg := by
   rw [run_encode_wire hr hx hw ctr e he]
   exact accepts_wf _ hwf rest
+
+/-- a clean message decoded from *an* encoding of the fields the decoder returned (any remaining-length form) is
+written as an encoding of its **current** fields, with the remaining-length bytes of the input -/
+theorem run_encode_encodes {o : Origin} {ss : List Setter} {m : Msg} (hr : run o ss = some m)
+    (hb : o.bodyCanonical = true) (hd : m.hdr.dirty = false) (ctr : UInt64) (e : Encoded)
+    (he : encode m ctr m.len = .ok e) : Wire.Encodes e.out (absMsg e.msg) := by
+  obtain ⟨V, hV⟩ := originV_of_body hb
+  exact (rinv_encode_encodes (rinv_run hr hV) hd ctr e he).2.2
+
+/-- the reference encoding is an encoding -/
+theorem encodes_reference (p : Wire.Packet) (hL : p.body.length ≤ 268435455) : Wire.Encodes (Wire.encode p) p := by
+  refine ⟨Wire.varint p.body.length, ?_, rfl⟩
+  have := getVarint_varint p.body.length hL []
+  rwa [List.append_nil] at this
+
+theorem hdrLen_le (n : Nat) : hdrLen n ≤ 5 := by
+  unfold hdrLen; repeat' split
+  all_goals omega
+
+theorem len_dirty_le (m : Msg) (hd : m.hdr.dirty = true) : m.len ≤ 268435460 := by
+  by_cases hb : ∃ h, m = .bare h
+  · obtain ⟨h, rfl⟩ := hb
+    simp only [Msg.hdr] at hd
+    simp only [Msg.len, hd, Bool.not_true, Bool.false_eq_true, if_false]
+    have := hdrLen_le h.remlen
+    omega
+  · by_cases hml : m.msglen > maxRemainingLength
+    · have : m.len = 0 := by
+        cases m <;> simp only [Msg.hdr] at hd <;> simp [Msg.len, Msg.hdr, hd, hml]
+        exact absurd ⟨_, rfl⟩ hb
+      omega
+    · rw [len_dirty m hd hml (fun h e => hb ⟨h, e⟩)]
+      have := hdrLen_le m.msglen
+      simp only [maxRemainingLength] at hml
+      omega
+
+/-- … and once dirty, the reference encoding `Encode` writes is in particular an encoding -/
+theorem reachable_dirty_encodes {m : Msg} (hr : Reachable m) (hd : m.hdr.dirty = true) (hw : WillOk m)
+    (ctr : UInt64) (e : Encoded) (he : encode m ctr m.len = .ok e) : Wire.Encodes e.out (absMsg e.msg) := by
+  have hwire := reachable_dirty_encode_wire hr hd hw ctr e he
+  rw [hwire]
+  apply encodes_reference
+  have hlen := encode_len_all m ctr e he
+  rw [hwire] at hlen
+  have hle := len_dirty_le m hd
+  have hWl : (Wire.encode (absMsg e.msg)).length =
+      1 + (Wire.varint (absMsg e.msg).body.length).length + (absMsg e.msg).body.length := by
+    unfold Wire.encode; simp only [List.length_cons, List.length_append]; omega
+  by_cases hb : (absMsg e.msg).body.length ≤ 268435455
+  · exact hb
+  · have := varint_len_big (absMsg e.msg).body.length (by omega)
+    omega
+
+theorem not_excludedV {o : Origin} {ss : List Setter} {m : Msg} (hr : run o ss = some m) (hx : ExcludedV o ss = false) :
+    o.bodyCanonical = true ∨ m.hdr.dirty = true := by
+  unfold ExcludedV at hx
+  rw [hr] at hx
+  cases hc : o.bodyCanonical with
+  | true => exact Or.inl rfl
+  | false =>
+    rw [hc] at hx
+    right
+    cases hd : m.hdr.dirty with
+    | true => rfl
+    | false => simp [hd] at hx
+
+/-- the bytes `Encode` writes are an MQTT 3.1.1 encoding of the message's current fields, for every run that is
+not `ExcludedV` -/
+theorem run_encodes {o : Origin} {ss : List Setter} {m : Msg} (hr : run o ss = some m) (hx : ExcludedV o ss = false)
+    (hw : WillOk m) (ctr : UInt64) (e : Encoded) (he : encode m ctr m.len = .ok e) :
+    Wire.Encodes e.out (absMsg e.msg) := by
+  cases hd : m.hdr.dirty with
+  | true => exact reachable_dirty_encodes ((reachable_iff_run m).mpr ⟨o, ss, hr⟩) hd hw ctr e he
+  | false =>
+    rcases not_excludedV hr hx with hb | hd'
+    · exact run_encode_encodes hr hb hd ctr e he
+    · rw [hd] at hd'; cases hd'
 
 /-- the message `Encode` leaves behind: an identifier is assigned only on the dirty path -/
 def assignR (m : Msg) (ctr : UInt64) : Msg := if m.hdr.dirty then assign m ctr else m
